@@ -60,7 +60,7 @@ func c12Value(g *gen.G, d *ref.PropDef) drv.Op {
 	case ref.KUTF8:
 		o.B = []byte{}
 		if !zero {
-			o.B = g.Str(g.Len1())
+			o.B = g.PropString(d.ID)
 		}
 	case ref.KBinary:
 		o.B = []byte{}
@@ -88,7 +88,7 @@ func c12Will(g *gen.G) *ref.Will {
 		case ref.KU32:
 			w.Props = append(w.Props, ref.Prop{ID: d.ID, N: g.U32()})
 		case ref.KUTF8:
-			w.Props = append(w.Props, ref.Prop{ID: d.ID, B: g.Str(g.Len1())})
+			w.Props = append(w.Props, ref.Prop{ID: d.ID, B: g.PropString(d.ID)})
 		case ref.KBinary:
 			w.Props = append(w.Props, ref.Prop{ID: d.ID, B: g.Bin(g.Len1())})
 		}
